@@ -2,7 +2,10 @@
 
 Driven (real, tree under test): `_ScalarAttributeImpl.set / delete`, `_ScalarObjectAttributeImpl.set / delete`,
 `_CollectionAttributeImpl` append / remove / set (bulk replace) through InstrumentedList / InstrumentedSet / KeyFuncDict
-mutators, `InstanceState._modified_event` (committed_state capture, first write wins), `Session.expire`, and then
+mutators, `InstanceState._modified_event` (committed_state capture, first write wins), `Session.expire`, writes of the
+foreign-key COLUMN attribute (`h.best_id = NULL / id of b0 / id of b1`, pending) interleaved in every position with the
+operations on the many-to-one `h.best` that is derived from that column (the implementation finds the "old" value of an
+unloaded reference through the foreign key: `LOAD_AGAINST_COMMITTED`), and then
 `inspect(obj).attrs.<key>.history` -> `History.from_scalar_attribute / from_object_attribute / from_collection`,
 `History.sum / non_deleted / non_added / has_changes / empty`, and `Session.flush` (persist exactly that difference).
 
@@ -16,12 +19,17 @@ is not a write):
   H2  orig unknown (first write hit an unloaded / never-set attribute):  ([cur], (), ())  and ([None], (), ()) after `del`
   H3  object reference: as H1 with `is`; an orig of None is not reported in `deleted` (then `del` reports ([None], (), ()));
       on an EXPIRED many-to-one the implementation may or may not know orig: both H1 and H2 readings are accepted
+      (H1 with orig = the object the COMMITTED row references).  A write of the foreign-key column attribute is a write of another
+      attribute: it is neither a write of the reference nor a change of its committed or current value, so H0-H3 for `best`
+      are evaluated exactly as if the column writes were not in the sequence
   H4  collection (list / set / dict): added = [c in cur | c not in orig], unchanged = [c in cur | c in orig],
       deleted = [o in orig | o not in cur]   (by identity; ordered for lists, as multisets for set / dict)
   H5  sum() = added+unchanged+deleted, non_deleted() = added+unchanged, non_added() = unchanged+deleted,
       has_changes() = bool(added or deleted), empty() = not any of the three
   F   after `Session.flush()` the row / foreign keys in SQLite equal `cur` (a deleted scalar / reference is NULL), and the
-      history of the attribute shows no change.
+      history of the attribute shows no change.  For `best`: when its history reports a difference the row's foreign key is
+      that of `cur`; when it reports none the flush persists nothing for the reference and the row holds the foreign-key
+      column's own value (the last one written in the sequence, else the committed one).
 The ghost never reads `committed_state`.
 """
 import json
@@ -80,6 +88,7 @@ def mappings():
 
 
 TNAMES = {0: "a", 1: "b", 2: "c", 3: "a"}
+FK_VALUES = (None, 0, 1)          # values written to the foreign-key column attribute h.best_id (ids of b0 / b1, or NULL)
 
 
 # ----------------------------------------------------------------------------------------------- operation catalogues
@@ -99,6 +108,10 @@ def _cat(attr):
             add(f"h.best=b{i}", lambda e, i=i: setattr(e["h"], "best", e["b"][i]))
         add("del h.best", lambda e: delattr(e["h"], "best"))
         add("expire(h,['best'])", lambda e: e["s"].expire(e["h"], ["best"]) if e["s"] is not None and e["persistent"] else None)
+        # writes of the foreign-key COLUMN attribute the reference is derived from (pending, unflushed): they change neither the
+        # committed nor the current value of `best`, but the implementation resolves an unloaded `best` through the foreign key
+        for v in FK_VALUES:
+            add(f"h.best_id={v!r}", lambda e, v=v: setattr(e["h"], "best_id", v))
     elif attr == "items":
         for i in range(3):
             add(f"h.items.append(t{i})", lambda e, i=i: e["h"].items.append(e["t"][i]))
@@ -214,6 +227,7 @@ def run_case(attr, kind, variant, names, engine=None, reset=True):
         v0 = committed_value(attr, variant, env)
         coll = attr in ("items", "tags", "named")
         orig = UNSET
+        fk = UNSET                  # ghost of the foreign-key column attribute: the last value written to h.best_id in this sequence
         for name in names:
             d = h.__dict__
             present = attr in d
@@ -225,6 +239,9 @@ def run_case(attr, kind, variant, names, engine=None, reset=True):
             except Exception as ex:
                 fails.append(f"operation {name} raised {type(ex).__name__}: {str(ex)[:120]}")
                 break
+            if name.startswith("h.best_id="):
+                fk = FK_VALUES[[f"h.best_id={v!r}" for v in FK_VALUES].index(name)]
+                continue            # a write of ANOTHER attribute: neither a write of `best` nor a change of what `best` holds
             if name.startswith("expire("):
                 if kind != "transient":
                     orig = UNSET
@@ -302,10 +319,15 @@ def run_case(attr, kind, variant, names, engine=None, reset=True):
                         fails.append(f"after flush the row holds x={dbv!r}, the attribute holds {want!r}")
                 elif attr == "best":
                     dbv = conn.exec_driver_sql(f"select best_id from hh where id={hid}").scalar()
-                    wantobj = cur if present else (None if orig is not UNSET else v0)
-                    want = None if wantobj is None else wantobj.id
-                    if dbv != want:
-                        fails.append(f"after flush the row holds best_id={dbv!r}, the attribute holds {tok(wantobj)}")
+                    if a_ or d_:        # the reference reports a difference: the flush persists it (it wins over a pending foreign-key column write)
+                        wantobj = cur if present else None
+                        want = None if wantobj is None else wantobj.id
+                        if dbv != want:
+                            fails.append(f"after flush the row holds best_id={dbv!r}, the attribute holds {tok(wantobj)}")
+                    else:               # no difference reported for the reference: the row keeps the foreign key column's own value
+                        want = fk if fk is not UNSET else (None if v0 is None else v0.id)
+                        if dbv != want:
+                            fails.append(f"after flush the row holds best_id={dbv!r}; the reference reports no change and the foreign key column holds {want!r}")
                 else:
                     col = {"items": "hl", "tags": "hs", "named": "hd"}[attr]
                     dbv = sorted(r[0] for r in conn.exec_driver_sql(f"select id from ht where {col}={hid}"))
@@ -331,7 +353,7 @@ def _worker(job):
         _G["engine"] = H.new_engine(mappings().Base.metadata)
     attr, kind, variant = job["attr"], job["kind"], job["variant"]
     cat = catalogue(attr)
-    res = dict(evaluations=0, nontrivial=0, failures=[], samples=[])
+    res = dict(evaluations=0, nontrivial=0, failures=[], samples=[], fk_column_write_mixed_with_reference_ops=0)
     reset_db(_G["engine"], 0 if kind == "transient" else variant)
     for idxs in H.job_sequences(len(cat), job):
         names = [cat[k][0] for k in idxs]
@@ -339,6 +361,8 @@ def _worker(job):
         res["evaluations"] += 1
         if r["changed"]:
             res["nontrivial"] += 1
+        if attr == "best" and any(n.startswith("h.best_id=") for n in names) and any(not n.startswith("h.best_id=") for n in names):
+            res["fk_column_write_mixed_with_reference_ops"] += 1
         desc = dict(attr=attr, kind=kind, variant=variant, ops=names, history=r["actual"], expected_one_of=r["expected"], first_write_saw=r["orig"])
         if r["fails"]:
             desc["broken"] = r["fails"]
@@ -391,11 +415,13 @@ def bounded(run, tier, seed):
         scope=f"one holder object with a scalar (x), a many-to-one (best), a list (items), a set (tags) and a keyed dict (named); object persistent-loaded / "
               f"persistent-expired (two committed values each: empty and populated) / transient; ALL mutation sequences of length in {list(lengths)} per attribute over "
               f"{ {a: len(catalogue(a)) for a in ATTRS} } operations (assign incl. set-back-to-original and None, del, expire, append / remove / pop / insert / clear / slice / "
-              f"replace / set operators / dict setitem, delitem, pop, update, setdefault, popitem); history read with inspect(obj).attrs.<key>.history, then flush on SQLite :memory:",
+              f"replace / set operators / dict setitem, delitem, pop, update, setdefault, popitem; for the many-to-one also pending writes of its foreign-key column attribute "
+              f"h.best_id in {list(FK_VALUES)}, in every position of the sequence); history read with inspect(obj).attrs.<key>.history, then flush on SQLite :memory:",
         evaluations=agg["evaluations"], distinct_nontrivial=agg["nontrivial"],
         rule="each (attribute, object kind, committed value, operation sequence) is enumerated once; non-trivial = the documented net change is not empty "
              "(expected added or deleted non-empty), counted",
-        samples=picked, exhaustive=True, label="bounded (not proof)", contract_failures=len(failures), wall_s=round(time.time() - t0, 1))
+        samples=picked, exhaustive=True, label="bounded (not proof)", contract_failures=len(failures),
+        sequences_mixing_fk_column_writes_with_reference_operations=agg["fk_column_write_mixed_with_reference_ops"], wall_s=round(time.time() - t0, 1))
     run.coverage.setdefault("bounded", []).append(blk)
     return blk
 
